@@ -145,6 +145,33 @@ func buildUsable(w *Worker, c *GCase) (*ref.Grammar, *ygo.Result, *ygo.View, str
 	return g, res, vw, text
 }
 
+// buildUsableLoose is buildUsable for the checks that can still judge token-level behaviour when the
+// rule list yaccgo works on differs from the file (C01, C02, C06): the view is then returned with
+// RulesDiffer set and rule numbers must not be interpreted.
+func buildUsableLoose(w *Worker, c *GCase) (*ref.Grammar, *ygo.View) {
+	g := ref.FromSpec(c.Spec)
+	if !g.Usable() {
+		w.Count("skipped_reference_says_unusable", 1)
+		return nil, nil
+	}
+	res := ygo.Build(c.Spec.Render(), ygo.Options{Fuel: buildFuel})
+	if !res.OK() {
+		w.Count("skipped_yaccgo_refused_usable_grammar", 1)
+		return nil, nil
+	}
+	vw, err := ygo.NewView(res.V, g)
+	if err != nil {
+		if vw != nil && vw.RulesDiffer {
+			w.Count("rule_list_differs_judged_at_token_level", 1)
+			return g, vw
+		}
+		w.Count("skipped_front_end_mismatch", 1)
+		w.SetAdd("front_end_mismatch", err.Error())
+		return nil, nil
+	}
+	return g, vw
+}
+
 func refOf(c *GCase) *ref.Grammar { return ref.FromSpec(c.Spec) }
 
 func readFile(p string) (string, error) {
